@@ -2,6 +2,7 @@ package main
 
 import (
 	"bufio"
+	"crypto/sha256"
 	"encoding/hex"
 	"encoding/json"
 	"fmt"
@@ -243,3 +244,5 @@ func trunc(s string, n int) string {
 	}
 	return s[:n] + fmt.Sprintf("…(+%d)", len(s)-n)
 }
+
+func sha256sum(b []byte) [32]byte { return sha256.Sum256(b) }
